@@ -192,6 +192,30 @@ def r01_3(chk):
     chk.floor("R01.3", 17, "16 SliceRecordABC twins + 2 helpers")
 
 
+READ_ONLY_TWINS = [
+    # (old class, new class, method): read / iterate / measure methods that are textually the same in both
+    # implementations on the pinned tree.  The property quantifies over both implementations with one right
+    # answer, so a one-sided change of any of them makes the implementations disagree.
+    ("Sequence", "Sequence", ["__iter__", "__len__", "__str__", "get_kmers", "iter_kmers", "sliding_windows", "get_name", "get_type", "gapped_by_map_motif_iter", "gapped_by_map_segment_iter"]),
+    ("SequenceI", "Sequence", ["__contains__", "__eq__", "__ne__", "__hash__", "__lt__", "count", "frac_same", "frac_diff", "frac_same_gaps", "frac_diff_gaps", "frac_same_non_gaps", "frac_diff_non_gaps", "frac_similar", "distance", "matrix_distance", "diff", "is_valid", "to_fasta"]),
+    ("NucleicAcidSequence", "NucleicAcidSequenceMixin", ["reverse_complement", "to_dna", "to_rna"]),
+]
+
+
+def r01_5(chk):
+    chk.rule("R01.5", "the read / iterate / measure methods that exist in both sequence implementations are equal after normalisation (same reasoning and stated limit as R01.3): a one-sided change makes old- and new-style sequences answer differently")
+    o = chk.repo.module(OLD)
+    n = chk.repo.module(NEW)
+    for oc, nc, names in READ_ONLY_TWINS:
+        a, b = o.cls(oc), n.cls(nc)
+        for name in names:
+            fa, fb = a.methods.get(name), b.methods.get(name)
+            if fa is None or fb is None:
+                raise AnalysisError(f"twin {oc}.{name} / {nc}.{name} missing on one side")
+            chk.decide(twins.same(fa, fb), "R01.5", key(o, f"{oc}.{name}", f"twin of new {nc}.{name}"), f"{o.loc(fa)} / {n.loc(fb)}", "identical after normalisation", "old and new implementations diverge: " + " ; ".join(twins.diff(fa, fb)))
+    chk.floor("R01.5", 31, "31 read-only twins")
+
+
 # ---------------------------------------------------------------------------
 VIEW_CLASSES = [(OLD, "SeqView"), (NEW, "SeqView"), (NEWALN, "SeqDataView")]
 
@@ -251,6 +275,7 @@ def r01_4(chk):
 def run(chk):
     r01_1_2(chk)
     r01_3(chk)
+    r01_5(chk)
     r01_4(chk)
     chk.assume("a reversed view stores the reverse of the parent slice but not its complement (both implementations)")
     chk.assume("R01.3 residual risk: a semantics-preserving rewrite of only one twin that survives the normaliser is reported as divergence")
